@@ -154,6 +154,16 @@ def end_harness(w, blocks, strategy, mode, bsize, iters, max_len, order='rev', f
                     if el.variant == 'Terminate' and feedback == b:
                         continue
                     routed[(b, r)].append(el)
+            # C18 (adaptive): an element handed to the batcher when more than max_delay has elapsed since the
+            # last flush must not stay in the buffer
+            if mode == 'adaptive' and not native and len(stubs) == 1 and el.variant != 'FlushBatch':
+                batcher = holder[0].get('senders').items[0].fields[1] if holder[0].get('senders').items else None
+                log = ex.env.get('clock_log', [])
+                if batcher is not None and batcher.get('buffer').items and log:
+                    hlib.cover(ex, 'adaptive_buffered')
+                    check(ex, z3.ULE(log[-1].z() - batcher.get('last_send').z(), bm.fields[1].z()),
+                          'adaptive batcher keeps an element buffered although max_delay has elapsed since the last flush',
+                          sx)
             # C18: nothing withheld at the end of an iteration / on a flush request / at the end
             if el.variant in ('FlushAndRestart', 'FlushBatch', 'Terminate') and not native:
                 for k, s in stubs.items():
